@@ -73,7 +73,11 @@ pub fn encode_mtrl(m: &MtrlSpec) -> Vec<u8> {
     let mut strings = vec![];
     let mut tex_offsets = vec![];
     for t in &m.textures {
-        tex_offsets.push(strings.len() as u32);
+        // an entry of the texture table is { u16 offset, u16 flags } (Lumina: TextureOffset); half of the entries carry
+        // flags (0x8000 as on Dawntrail textures, or another bit)
+        let i = tex_offsets.len() as u32;
+        let flags: u32 = if (m.flag_noise >> (8 + i)) & 1 == 1 { 0x8000 } else if (m.flag_noise >> (14 + i)) & 1 == 1 { 1 << (i + (m.flag_noise >> 20) % 8) } else { 0 };
+        tex_offsets.push(strings.len() as u32 | flags << 16);
         strings.extend_from_slice(t.as_bytes());
         strings.push(0);
     }
